@@ -195,9 +195,15 @@ pub fn generate(out: &mut Out, rng: &Prng, thorough: bool, workdir: &std::path::
                 let mut st = with2.borrow_mut();
                 // log: (op, obs of the run WITH insertions, obs of the run WITHOUT, class)
                 // the op itself on the second run
+                // the exact timer durations of the run without insertions (this op was just executed there) ...
+                let raw_base = super::inst::last_raw_timers();
                 let obs_with = st.0.exec(op);
-                let tag = if strip_queue(&obs_with) == strip_queue(obs) { "same" } else { "DIFF" };
-                st.1.push((format!("{op}"), format!("{obs_with}\t{tag}\t{obs}")));
+                // ... and of the run with them: an inserted frame that consumes a draw of the port's random source
+                // shifts every later randomised duration, although the observation prints both as `rand`
+                let raw_with = super::inst::last_raw_timers();
+                let tag = if strip_queue(&obs_with) == strip_queue(obs) && raw_with == raw_base { "same" } else { "DIFF" };
+                let timers = if raw_with != raw_base { format!(" ; exact timer durations without insertions {raw_base:?}, with {raw_with:?}") } else { String::new() };
+                st.1.push((format!("{op}"), format!("{obs_with}\t{tag}\t{obs}{timers}")));
                 // then, with some probability, insert ignored frames (they come *after* this op, i.e. before the next)
                 if !w.ports.is_empty() && obs != "R panic" && irng2.chance(1, 2) {
                     let n = 1 + irng2.below(2);
